@@ -690,6 +690,16 @@ fn cmd_run(args: &[String]) -> i32 {
         PROGRESS_FD.store(f.into_raw_fd(), Ordering::Relaxed);
     }
     let tgt = target();
+    // C09 across processes: one simulated CPU per worker process, so that
+    // process-wide state (a cache a change might introduce) never sees the
+    // CPU change under its feet
+    let force_cpu: Option<Cpu> = match arg(args, "--force-cpu") {
+        None => None,
+        Some("Host") => Some(Cpu::Host),
+        Some("NoAvx2") => Some(Cpu::NoAvx2),
+        Some("NoSimd") => Some(Cpu::NoSimd),
+        Some(x) => panic!("--force-cpu {}", x),
+    };
     let start = std::time::Instant::now();
     let mut rep = RunReport { prop: prop.to_string(), seed, from, to, ..Default::default() };
     let mut sigs: std::collections::HashSet<u64> = std::collections::HashSet::new();
@@ -697,7 +707,21 @@ fn cmd_run(args: &[String]) -> i32 {
     let mut traces: std::collections::HashSet<u64> = std::collections::HashSet::new();
     let mut code = 0;
     for index in from..to {
-        let fam = gen::generate(profile, seed, index, tgt);
+        let mut fam = gen::generate(profile, seed, index, tgt);
+        if let Some(cpu) = force_cpu {
+            let mut seen: Vec<String> = Vec::new();
+            let mut kept = Vec::new();
+            for mut v in fam.variants.drain(..) {
+                v.cpu = cpu;
+                let key = format!("{:?}", v);
+                if !seen.contains(&key) {
+                    seen.push(key);
+                    kept.push(v);
+                }
+            }
+            fam.variants = kept;
+            fam.base.env = fam.variants[0].clone();
+        }
         PROG_FAMILY.store(index, Ordering::Relaxed);
         if cfg!(miri) {
             // attribution of an interpreter abort to a family
@@ -845,6 +869,25 @@ fn cmd_gen(args: &[String]) -> i32 {
     }
     let index: u64 = arg(args, "--index").unwrap_or("0").parse().unwrap();
     let mut fam = gen::generate(profile, seed, index, target());
+    if let Some(x) = arg(args, "--force-cpu") {
+        let cpu = match x {
+            "Host" => Cpu::Host,
+            "NoAvx2" => Cpu::NoAvx2,
+            _ => Cpu::NoSimd,
+        };
+        let mut seen: Vec<String> = Vec::new();
+        let mut kept = Vec::new();
+        for mut v in fam.variants.drain(..) {
+            v.cpu = cpu;
+            let key = format!("{:?}", v);
+            if !seen.contains(&key) {
+                seen.push(key);
+                kept.push(v);
+            }
+        }
+        fam.variants = kept;
+        fam.base.env = fam.variants[0].clone();
+    }
     if let Some(c) = arg(args, "--choices") {
         // choices of the LAST variant (the one that runs under a scheduler)
         let list: Vec<u32> = c.split(',').filter(|s| !s.is_empty()).map(|s| s.parse().unwrap()).collect();
